@@ -511,30 +511,35 @@ func condWaitCtxOK(p *Prog, lf *LockFacts, f *ssa.Function, l *Loop, wait *ssa.C
 	var errCall *ssa.Call
 	ctxField := ""
 	for b := range l.Blocks {
-		iff, isIf := b.Instrs[len(b.Instrs)-1].(*ssa.If)
-		if !isIf {
-			continue
+		for _, in := range b.Instrs {
+			ec, isC := in.(*ssa.Call)
+			if !isC {
+				continue
+			}
+			ctx, isE := isCtxErr(ec)
+			if !isE || ctxOrigin(ctx) == "" || !ec.Block().Dominates(wait.Block()) {
+				continue
+			}
+			// on the ways on which this ctx.Err() was non-nil, neither the wait nor another iteration is reached (the test may
+			// be spelled `if err := ctx.Err(); err != nil { return }` or go through a (value, done) pair of a helper)
+			cs := newCondSpace(f, recOf(eqAtom("ctxLive", isVal(ec), isNil)), "ctxLive")
+			if !cs.Seen("ctxLive") {
+				continue
+			}
+			dead := cs.Not(cs.Atom("ctxLive"))
+			stays := cs.Satisfiable(and(dead, cs.Reach(wait)))
+			for _, lt := range l.Latch {
+				for bi, sb := range lt.Succs {
+					if sb == l.Header && cs.Satisfiable(and(dead, and(cs.EdgeCond(lt, bi), cs.Reach(ec)))) {
+						stays = true
+					}
+				}
+			}
+			if stays {
+				continue
+			}
+			errCall, ctxField = ec, ctxFieldOf(ctx)
 		}
-		bo, isB := iff.Cond.(*ssa.BinOp)
-		if !isB || (bo.Op != token.NEQ && bo.Op != token.EQL) || !isNilConst(bo.Y) {
-			continue
-		}
-		ctx, isE := isCtxErr(bo.X)
-		if !isE || ctxOrigin(ctx) == "" {
-			continue
-		}
-		leave := b.Succs[0]
-		if bo.Op == token.EQL {
-			leave = b.Succs[1]
-		}
-		if reachesLoop(leave, l) {
-			continue
-		}
-		ec := stripConv(bo.X).(*ssa.Call)
-		if !ec.Block().Dominates(wait.Block()) || !l.Blocks[ec.Block()] {
-			continue
-		}
-		errCall, ctxField = ec, ctxFieldOf(ctx)
 	}
 	if errCall == nil {
 		return false, ""
@@ -596,28 +601,33 @@ func condWaitCtxOK(p *Prog, lf *LockFacts, f *ssa.Function, l *Loop, wait *ssa.C
 	if goIns.Block().Dominates(wait.Block()) {
 		return true, fmt.Sprintf("each iteration leaves on %s.Err() != nil before waiting, and a waker started at %s broadcasts on %s (lock held) when that context is done", ctxField, p.ipos(goIns), condField)
 	}
-	// started once, guarded by a local that is nil exactly until the waker exists
-	var guard *ssa.Alloc
+	// started once, guarded by a local that is nil exactly until the waker exists: the local (a variable cell or a loop
+	// variable) holds nil or the channel made in the block that starts the waker, and nothing else
+	var mk *ssa.MakeChan
 	for _, in := range goIns.Block().Instrs {
-		if st, isSt := in.(*ssa.Store); isSt {
-			if al, isAl := st.Addr.(*ssa.Alloc); isAl {
-				if _, isMk := st.Val.(*ssa.MakeChan); isMk {
-					guard = al
-				}
-			}
+		if m, isMk := in.(*ssa.MakeChan); isMk {
+			mk = m
 		}
 	}
-	if guard == nil {
+	if mk == nil {
 		return false, "the waker goroutine is not started on every path to the wait, and no guard variable ties the two"
 	}
-	for _, st := range storesTo(guard) {
-		if st.Block() != goIns.Block() {
-			return false, "the waker's guard variable is assigned outside the block that starts the waker"
-		}
-	}
 	isGuardLoad := func(v ssa.Value) bool {
-		u, ok := stripConv(v).(*ssa.UnOp)
-		return ok && u.X == ssa.Value(guard)
+		v = stripConv(v)
+		if _, isK := v.(*ssa.Const); isK {
+			return false
+		}
+		n := 0
+		for _, o := range origins(v) {
+			switch {
+			case isConstNilOrigin(o) || o.Kind == "zero":
+			case o.Val == ssa.Value(mk):
+				n++
+			default:
+				return false
+			}
+		}
+		return n > 0
 	}
 	acs := newCondSpaceAvoid(f, recOf(eqAtom("noWaker", isGuardLoad, isNil)), map[*ssa.BasicBlock]bool{goIns.Block(): true}, "noWaker")
 	if imp, wit := acs.Implies(acs.Reach(wait), acs.Not(acs.Atom("noWaker"))); !imp || !acs.Seen("noWaker") {
